@@ -172,3 +172,66 @@ def zuc_s1_algebraic():
                 r ^= cols[j]
         out.append(r)
     return out
+
+
+# ---- ZUC-128 keystream generator (GM/T 0001.1 / ETSI SAGE ZUC v1.6), parameterised by S0,S1 and the LFSR feedback
+def zuc_l1(x):
+    return x ^ rol(x, 2) ^ rol(x, 10) ^ rol(x, 18) ^ rol(x, 24)
+
+
+def zuc_l2(x):
+    return x ^ rol(x, 8) ^ rol(x, 14) ^ rol(x, 22) ^ rol(x, 30)
+
+
+def zuc_bitreorg(s):
+    """s: 16 BV32 holding 31-bit cells. X0 = s15H||s14L, X1 = s11L||s9H, X2 = s7L||s5H, X3 = s2L||s0H"""
+    H = lambda c: z3.Extract(30, 15, c)
+    L = lambda c: z3.Extract(15, 0, c)
+    return [z3.Concat(H(s[15]), L(s[14])), z3.Concat(L(s[11]), H(s[9])), z3.Concat(L(s[7]), H(s[5])), z3.Concat(L(s[2]), H(s[0]))]
+
+
+def zuc_F(x, r1, r2, S0, S1):
+    w = (x[0] ^ r1) + r2
+    w1 = r1 + x[1]
+    w2 = r2 ^ x[2]
+    u = zuc_l1(z3.Concat(z3.Extract(15, 0, w1), z3.Extract(31, 16, w2)))
+    v = zuc_l2(z3.Concat(z3.Extract(15, 0, w2), z3.Extract(31, 16, w1)))
+    sb = lambda t: z3.Concat(S0(z3.Extract(31, 24, t)), S1(z3.Extract(23, 16, t)), S0(z3.Extract(15, 8, t)), S1(z3.Extract(7, 0, t)))
+    return w, sb(u), sb(v)
+
+
+def zuc_load(key_bytes, iv_bytes):
+    return [z3.Concat(z3.BitVecVal(0, 1), key_bytes[i], z3.BitVecVal(ZUC_D[i], 15), iv_bytes[i]) for i in range(16)]
+
+
+def zuc_init(key_bytes, iv_bytes, S0, S1, lfsr_init, lfsr_work):
+    s = zuc_load(key_bytes, iv_bytes)
+    r1 = z3.BitVecVal(0, 32)
+    r2 = z3.BitVecVal(0, 32)
+    for _ in range(32):
+        x = zuc_bitreorg(s)
+        w, r1, r2 = zuc_F(x, r1, r2, S0, S1)
+        s = s[1:] + [lfsr_init(s, z3.LShR(w, 1))]
+    # first working step, output discarded
+    x = zuc_bitreorg(s)
+    w, r1, r2 = zuc_F(x, r1, r2, S0, S1)
+    s = s[1:] + [lfsr_work(s)]
+    return s, r1, r2
+
+
+def zuc_step(s, r1, r2, S0, S1, lfsr_work):
+    x = zuc_bitreorg(s)
+    w, r1, r2 = zuc_F(x, r1, r2, S0, S1)
+    z = w ^ x[3]
+    s = s[1:] + [lfsr_work(s)]
+    return z, s, r1, r2
+
+
+ZUC_M = (1 << 31) - 1
+
+
+def zuc_lfsr_math(s_ints, u=None):
+    """python-int reference of the feedback: (2^15 s15 + 2^17 s13 + 2^21 s10 + 2^20 s4 + (1+2^8) s0 [+ u]) mod (2^31-1), 0 -> 2^31-1"""
+    v = (s_ints[15] << 15) + (s_ints[13] << 17) + (s_ints[10] << 21) + (s_ints[4] << 20) + s_ints[0] * 257 + (u or 0)
+    v %= ZUC_M
+    return v if v else ZUC_M
